@@ -420,7 +420,7 @@ def op_target(op, n_before):
 
 # ------------------------------------------------------------------ s-expressions of specs / ops / results
 def spec_sx(spec):
-    return sx(['schema', array_default_mode()] + spec)
+    return sx(['schema', 'fresh'] + spec)      # model pinned to the repaired get_field_value (/repo fcb8b8f)
 
 
 def ops_sx(ops):
@@ -1047,9 +1047,9 @@ def run(ctx):
     mode = array_default_mode()
     ctx.notes.append(
         f'library probed: a never-assigned array field reads as {"the one class-level list (code as it is)" if mode == "shared" else "a new list on every read (repaired get_field_value)"}; '
-        f'the model is asked with `(schema {mode} …)`, so the theorems that apply are '
-        + ('the `_partial` ones (hypothesis: no in-place mutation of a list obtained by reading a never-assigned array field) plus Witness/C18.lean'
-           if mode == 'shared' else 'the full-strength ones (C18_frame, C18_encode_frame, C18_observe_pure: every history)'))
+        'the model is PINNED to `(schema fresh …)` (the repaired get_field_value, /repo fcb8b8f): the theorems that apply are the '
+        'full-strength ones (C18_frame, C18_encode_frame, C18_observe_pure: every history); a tree with the shared class-level list '
+        'disagrees with the model and fails the oracle')
     ctx.notes.append('assign-from-another-instance (`copy`) and `clone` are real operations of the Lean model (deep copy: stored graph -> tree '
                      '-> the conversion of __setitem__ -> fresh cells of the target), covered by the frame theorems and by C18_copy_confined / '
                      'C18_clone_fresh; they are exercised on FIX only — binary __setattr__ stores the reference it is given, which is aliasing '
